@@ -16,14 +16,9 @@ def Agree (sch : Schema) (s : Store) : Prop :=
 def Range (s : Store) : Prop :=
   (∀ o a x, o < s.n → s.ref o a = some x → x < s.n) ∧ (∀ o a x, o < s.n → s.mem o a x = true → x < s.n)
 
-/-- no object is its own partner under a symmetric (self-reverse) reference attribute -/
-def NoSelf (sch : Schema) (s : Store) : Prop :=
-  ∀ o a, o < s.n → sch.rev a = a → s.ref o a ≠ some o
-
 structure Inv (sch : Schema) (s : Store) : Prop where
   range : Range s
   agree : Agree sch s
-  noself : NoSelf sch s
 
 /-! ## Schema facts -/
 
@@ -179,5 +174,323 @@ theorem attrClearRev_ok {sch : Schema} {o : ObjId} {a : Attr} {st st' : St} (h :
             · simp [clearRevStore, hu, Schema.isCollAttr, hrd, hcoll]
             · intro u' _ hc; simp [hc] at hcoll
     · cases h
+
+
+/-- store after `Attribute.__set__(o, x)` as a reverse call -/
+def setRevStore (sch : Schema) (s : Store) (o : ObjId) (a : Attr) (x : ObjId) : Store :=
+  if s.ref o a = some x then s else
+  match s.ref o a with
+  | none => s.setRef o a (some x)
+  | some u =>
+    if sch.isCollAttr (sch.rev a) then (s.setRef o a (some x)).setMem u (sch.rev a) o false
+    else if u = o ∧ sch.rev a = a then s.setRef o a (some x)
+    else clearRevStore sch (s.setRef o a (some x)) u (sch.rev a)
+
+theorem attrSetRev_ok {sch : Schema} {o : ObjId} {a : Attr} {x : ObjId} {st st' : St} (h : attrSetRev sch o a x st = .ok st') :
+    st'.store = setRevStore sch st.store o a x ∧ st.store.alive o = true ∧
+    (∃ d rd, sch.side a = some d ∧ sch.side (sch.rev a) = some rd ∧
+      (∀ u, st.store.ref o a = some u → u ≠ x → rd.isColl = true → st.store.mem u (sch.rev a) o = true) ∧
+      (∀ u, st.store.ref o a = some u → u ≠ x → rd.isColl = false → ¬ (u = o ∧ sch.rev a = a) →
+          (st.store.setRef o a (some x)).alive u = true)) := by
+  unfold attrSetRev at h
+  split at h
+  · cases h
+  · rename_i hal
+    have hal' : st.store.alive o = true := by simpa using hal
+    split at h
+    · rename_i d rd hd hrd
+      simp only at h
+      split at h
+      · rename_i heq
+        cases h
+        refine ⟨by simp [setRevStore, heq], hal', d, rd, hd, hrd, ?_, ?_⟩ <;>
+          (intro u hu hne; rw [heq] at hu; cases hu; exact absurd rfl hne)
+      · rename_i hne
+        split at h
+        · rename_i hnone
+          cases h
+          refine ⟨by simp [setRevStore, hnone], hal', d, rd, hd, hrd, ?_, ?_⟩ <;>
+            (intro u hu; rw [hnone] at hu; cases hu)
+        · rename_i u hu
+          have hstore : ∀ (t : Store), (if sch.isCollAttr (sch.rev a) = true then (st.store.setRef o a (some x)).setMem u (sch.rev a) o false
+                else if u = o ∧ sch.rev a = a then st.store.setRef o a (some x)
+                else clearRevStore sch (st.store.setRef o a (some x)) u (sch.rev a)) = t → setRevStore sch st.store o a x = t := by
+            intro t ht
+            unfold setRevStore
+            rw [if_neg hne]
+            simp only [hu]
+            exact ht
+          have hic : sch.isCollAttr (sch.rev a) = rd.isColl := by simp [Schema.isCollAttr, hrd]
+          split at h
+          · rename_i hcoll
+            have h1 := iter_single_ok h
+            obtain ⟨hm, hs⟩ := reverseRemove1_ok h1
+            simp only [St.log_store, St.setStore_store] at hm hs
+            refine ⟨?_, hal', d, rd, hd, hrd, ?_, ?_⟩
+            · rw [hs]; symm; apply hstore; rw [hic, if_pos hcoll]
+            · intro u' hu' _ _; rw [hu] at hu'; cases hu'; simpa [Store.setRef] using hm
+            · intro u' _ _ hc; simp [hc] at hcoll
+          · rename_i hcoll
+            split at h
+            · cases h
+            · split at h
+              · rename_i hself
+                cases h
+                refine ⟨?_, hal', d, rd, hd, hrd, ?_, ?_⟩
+                · simp only [St.log_store, St.setStore_store]
+                  symm; apply hstore; rw [hic, if_neg hcoll, if_pos hself]
+                · intro u' _ _ hc; simp [hc] at hcoll
+                · intro u' hu' _ _ hns; rw [hu] at hu'; cases hu'; exact absurd hself hns
+              · rename_i hself
+                obtain ⟨hs, hal2, _⟩ := attrClearRev_ok h
+                simp only [St.log_store, St.setStore_store] at hs hal2
+                refine ⟨?_, hal', d, rd, hd, hrd, ?_, ?_⟩
+                · rw [hs]; symm; apply hstore; rw [hic, if_neg hcoll, if_neg hself]
+                · intro u' _ _ hc; simp [hc] at hcoll
+                · intro u' hu' _ _ _; rw [hu] at hu'; cases hu'; exact hal2
+    · cases h
+
+
+/-! ## The small procedures seen through `hasB` -/
+
+section small
+variable {sch : Schema} {s : Store}
+
+/-- many-to-one: clearing `o.a` also removes `o` from the collection of its previous owner -/
+theorem has_clearRev_m2o {a : Attr} {d rd : Side} (ha : sch.side a = some d) (hd : d.isColl = false)
+    (hra : sch.side (sch.rev a) = some rd) (hrd : rd.isColl = true) (o p : ObjId) (b : Attr) (q : ObjId) :
+    hasB sch (clearRevStore sch s o a) p b q = true ↔
+      hasB sch s p b q = true ∧ ¬ (p = o ∧ b = a) ∧ ¬ (b = sch.rev a ∧ q = o ∧ s.ref o a = some p) := by
+  unfold clearRevStore
+  have hic : sch.isCollAttr (sch.rev a) = true := by simp [Schema.isCollAttr, hra, hrd]
+  have hne : a ≠ sch.rev a := Schema.ne_of_kinds ha hra (by simp [hd, hrd])
+  have e1 := hasB_ref_eq (s := s) ha hd
+  cases hu : s.ref o a with
+  | none => simp only []; grind
+  | some u =>
+    simp only [hic, if_true]
+    rw [hasB_setMem hra hrd, hasB_setRef ha hd]
+    grind
+
+/-- one-to-one: clearing `o.a` touches that cell only -/
+theorem has_clearRev_o2o {a : Attr} {d rd : Side} (ha : sch.side a = some d) (hd : d.isColl = false)
+    (hra : sch.side (sch.rev a) = some rd) (hrd : rd.isColl = false) (o p : ObjId) (b : Attr) (q : ObjId) :
+    hasB sch (clearRevStore sch s o a) p b q = true ↔ hasB sch s p b q = true ∧ ¬ (p = o ∧ b = a) := by
+  unfold clearRevStore
+  have hic : sch.isCollAttr (sch.rev a) = false := by simp [Schema.isCollAttr, hra, hrd]
+  have e1 := hasB_ref_eq (s := s) ha hd
+  cases hu : s.ref o a with
+  | none => simp only []; grind
+  | some u =>
+    simp only [hic]
+    rw [if_neg (by simp), hasB_setRef ha hd]
+    grind
+
+/-- many-to-one: `o.a := x` moves `o` out of the collection of its previous owner -/
+theorem has_setRev_m2o {a : Attr} {d rd : Side} (ha : sch.side a = some d) (hd : d.isColl = false)
+    (hra : sch.side (sch.rev a) = some rd) (hrd : rd.isColl = true) (o x p : ObjId) (b : Attr) (q : ObjId) :
+    hasB sch (setRevStore sch s o a x) p b q = true ↔
+      if p = o ∧ b = a then q = x
+      else hasB sch s p b q = true ∧ ¬ (b = sch.rev a ∧ q = o ∧ s.ref o a = some p ∧ p ≠ x) := by
+  unfold setRevStore
+  have hic : sch.isCollAttr (sch.rev a) = true := by simp [Schema.isCollAttr, hra, hrd]
+  have hne : a ≠ sch.rev a := Schema.ne_of_kinds ha hra (by simp [hd, hrd])
+  have e1 := hasB_ref_eq (s := s) ha hd
+  by_cases hx : s.ref o a = some x
+  · rw [if_pos hx]; grind
+  · rw [if_neg hx]
+    cases hu : s.ref o a with
+    | none => simp only []; rw [hasB_setRef ha hd]; grind
+    | some u =>
+      simp only [hic, if_true]
+      rw [hasB_setMem hra hrd, hasB_setRef ha hd]
+      grind
+
+/-- one-to-one: `o.a := x` also clears the reverse reference of the previous partner of `o` (unless that is `o` itself
+    under a symmetric attribute) -/
+theorem has_setRev_o2o {a : Attr} {d rd : Side} (ha : sch.side a = some d) (hd : d.isColl = false)
+    (hra : sch.side (sch.rev a) = some rd) (hrd : rd.isColl = false) (o x p : ObjId) (b : Attr) (q : ObjId) :
+    hasB sch (setRevStore sch s o a x) p b q = true ↔
+      if p = o ∧ b = a then q = x
+      else hasB sch s p b q = true ∧ ¬ (b = sch.rev a ∧ s.ref o a = some p ∧ s.ref o a ≠ some x) := by
+  unfold setRevStore
+  have hic : sch.isCollAttr (sch.rev a) = false := by simp [Schema.isCollAttr, hra, hrd]
+  have e1 := hasB_ref_eq (s := s) ha hd
+  have hrr := sch.rev_rev a
+  by_cases hx : s.ref o a = some x
+  · rw [if_pos hx]; grind
+  · rw [if_neg hx]
+    cases hu : s.ref o a with
+    | none => simp only []; rw [hasB_setRef ha hd]; grind
+    | some u =>
+      simp only [hic]
+      rw [if_neg (by simp)]
+      by_cases hself : u = o ∧ sch.rev a = a
+      · rw [if_pos hself, hasB_setRef ha hd]; grind
+      · rw [if_neg hself]
+        have ha' : sch.side (sch.rev (sch.rev a)) = some d := by rw [hrr]; exact ha
+        rw [has_clearRev_o2o hra hrd ha' hd, hasB_setRef ha hd]
+        grind
+
+end small
+
+
+/-! ## Frames -/
+
+/-- object table untouched (everything except `delete` and `create`) -/
+structure Frame (s s' : Store) : Prop where
+  n : s'.n = s.n
+  alive : s'.alive = s.alive
+  ent : s'.ent = s.ent
+
+theorem Frame.refl (s : Store) : Frame s s := ⟨rfl, rfl, rfl⟩
+theorem Frame.trans {s s1 s2 : Store} (h1 : Frame s s1) (h2 : Frame s1 s2) : Frame s s2 :=
+  ⟨h2.n.trans h1.n, h2.alive.trans h1.alive, h2.ent.trans h1.ent⟩
+
+section rawfacts
+variable {sch : Schema} {s : Store}
+
+theorem frame_clearRev (o : ObjId) (a : Attr) : Frame s (clearRevStore sch s o a) := by
+  unfold clearRevStore; cases s.ref o a with
+  | none => exact Frame.refl s
+  | some u => simp only []; split <;> exact ⟨rfl, rfl, rfl⟩
+
+theorem ref_clearRev (o : ObjId) (a : Attr) (p : ObjId) (b : Attr) :
+    (clearRevStore sch s o a).ref p b = if p = o ∧ b = a then none else s.ref p b := by
+  unfold clearRevStore
+  cases hu : s.ref o a with
+  | none => simp only []; split <;> simp_all
+  | some u => simp only []; split <;> simp [Store.setRef, Store.setMem]
+
+theorem mem_clearRev (o : ObjId) (a : Attr) (p : ObjId) (b : Attr) (q : ObjId)
+    (h : (clearRevStore sch s o a).mem p b q = true) : s.mem p b q = true := by
+  unfold clearRevStore at h
+  cases hu : s.ref o a with
+  | none => simpa [hu] using h
+  | some u =>
+    simp only [hu] at h
+    split at h
+    · simp only [Store.setMem, Store.setRef] at h; split at h <;> simp_all
+    · simpa [Store.setRef] using h
+
+theorem frame_setRev (o : ObjId) (a : Attr) (x : ObjId) : Frame s (setRevStore sch s o a x) := by
+  unfold setRevStore
+  split
+  · exact Frame.refl s
+  · cases s.ref o a with
+    | none => exact ⟨rfl, rfl, rfl⟩
+    | some u =>
+      simp only []
+      split
+      · exact ⟨rfl, rfl, rfl⟩
+      · split
+        · exact ⟨rfl, rfl, rfl⟩
+        · exact Frame.trans (s1 := s.setRef o a (some x)) ⟨rfl, rfl, rfl⟩ (frame_clearRev _ _)
+
+theorem ref_setRev_m2o {a : Attr} (hic : sch.isCollAttr (sch.rev a) = true) (o x p : ObjId) (b : Attr) :
+    (setRevStore sch s o a x).ref p b = if p = o ∧ b = a then some x else s.ref p b := by
+  unfold setRevStore
+  split
+  · split <;> simp_all
+  · cases hu : s.ref o a with
+    | none => simp [Store.setRef]
+    | some u => simp [hic, Store.setRef, Store.setMem]
+
+theorem mem_setRev (o : ObjId) (a : Attr) (x p : ObjId) (b : Attr) (q : ObjId)
+    (h : (setRevStore sch s o a x).mem p b q = true) : s.mem p b q = true := by
+  unfold setRevStore at h
+  split at h
+  · exact h
+  · cases hu : s.ref o a with
+    | none => simpa [hu, Store.setRef] using h
+    | some u =>
+      simp only [hu] at h
+      split at h
+      · simp only [Store.setMem, Store.setRef] at h; split at h <;> simp_all
+      · split at h
+        · simpa [Store.setRef] using h
+        · have := mem_clearRev _ _ _ _ _ h; simpa [Store.setRef] using this
+
+end rawfacts
+
+/-! ## The four loops -/
+
+section loops
+variable {sch : Schema}
+
+/-- loop A: `for item in items: reverse.__set__(item, None, undo_funcs)` on a one-to-many collection -/
+theorem iterClear_ok {rc : Attr} {d cd : Side} (hrc : sch.side rc = some d) (hd : d.isColl = false)
+    (hc : sch.side (sch.rev rc) = some cd) (hcd : cd.isColl = true) :
+    ∀ (items : List ObjId) (st st' : St), iter (fun i => attrClearRev sch i rc) items st = .ok st' →
+      (∀ p b q, hasB sch st'.store p b q = true ↔
+          hasB sch st.store p b q = true ∧ ¬ (b = rc ∧ p ∈ items) ∧ ¬ (b = sch.rev rc ∧ q ∈ items ∧ st.store.ref q rc = some p)) ∧
+      (∀ p b, st'.store.ref p b = if b = rc ∧ p ∈ items then none else st.store.ref p b) ∧
+      Frame st.store st'.store ∧
+      (∀ p b q, st'.store.mem p b q = true → st.store.mem p b q = true) ∧
+      (∀ i ∈ items, st.store.alive i = true) := by
+  intro items
+  induction items with
+  | nil => intro st st' h; simp at h; cases h; simp [Frame.refl]
+  | cons i rest ih =>
+    intro st st' h
+    obtain ⟨st1, h1, h2⟩ := iter_cons_ok h
+    obtain ⟨hs1, hal, _⟩ := attrClearRev_ok h1
+    obtain ⟨ihH, ihR, ihF, ihM, ihA⟩ := ih st1 st' h2
+    have hF1 : Frame st.store st1.store := hs1 ▸ frame_clearRev i rc
+    refine ⟨?_, ?_, Frame.trans hF1 ihF, ?_, ?_⟩
+    · intro p b q
+      rw [ihH, hs1, has_clearRev_m2o hrc hd hc hcd, ref_clearRev]
+      simp only [List.mem_cons]
+      grind
+    · intro p b
+      rw [ihR, hs1, ref_clearRev]
+      simp only [List.mem_cons]
+      grind
+    · intro p b q hm
+      exact mem_clearRev (sch := sch) i rc p b q (hs1 ▸ ihM p b q hm)
+    · intro j hj
+      rcases List.mem_cons.mp hj with rfl | hj
+      · exact hal
+      · have := ihA j hj; rw [hF1.alive] at this; exact this
+
+/-- loop B: `for item in items: reverse.__set__(item, obj, undo_funcs)` on a one-to-many collection of `o` -/
+theorem iterSet_ok {rc : Attr} {d cd : Side} (hrc : sch.side rc = some d) (hd : d.isColl = false)
+    (hc : sch.side (sch.rev rc) = some cd) (hcd : cd.isColl = true) (o : ObjId) :
+    ∀ (items : List ObjId) (st st' : St), iter (fun i => attrSetRev sch i rc o) items st = .ok st' →
+      (∀ p b q, hasB sch st'.store p b q = true ↔
+          if b = rc ∧ p ∈ items then q = o
+          else hasB sch st.store p b q = true ∧
+               ¬ (b = sch.rev rc ∧ q ∈ items ∧ st.store.ref q rc = some p ∧ p ≠ o)) ∧
+      (∀ p b, st'.store.ref p b = if b = rc ∧ p ∈ items then some o else st.store.ref p b) ∧
+      Frame st.store st'.store ∧
+      (∀ p b q, st'.store.mem p b q = true → st.store.mem p b q = true) ∧
+      (∀ i ∈ items, st.store.alive i = true) := by
+  have hic : sch.isCollAttr (sch.rev rc) = true := by simp [Schema.isCollAttr, hc, hcd]
+  intro items
+  induction items with
+  | nil => intro st st' h; simp at h; cases h; simp [Frame.refl]
+  | cons i rest ih =>
+    intro st st' h
+    obtain ⟨st1, h1, h2⟩ := iter_cons_ok h
+    obtain ⟨hs1, hal, _⟩ := attrSetRev_ok h1
+    obtain ⟨ihH, ihR, ihF, ihM, ihA⟩ := ih st1 st' h2
+    have hF1 : Frame st.store st1.store := hs1 ▸ frame_setRev i rc o
+    refine ⟨?_, ?_, Frame.trans hF1 ihF, ?_, ?_⟩
+    · intro p b q
+      rw [ihH, hs1, has_setRev_m2o hrc hd hc hcd, ref_setRev_m2o hic]
+      simp only [List.mem_cons]
+      grind
+    · intro p b
+      rw [ihR, hs1, ref_setRev_m2o hic]
+      simp only [List.mem_cons]
+      grind
+    · intro p b q hm
+      exact mem_setRev (sch := sch) i rc o p b q (hs1 ▸ ihM p b q hm)
+    · intro j hj
+      rcases List.mem_cons.mp hj with rfl | hj
+      · exact hal
+      · have := ihA j hj; rw [hF1.alive] at this; exact this
+
+end loops
 
 end PonyVerif.Model.Rel
